@@ -5,24 +5,81 @@
     (lookupipbl_name(relayclients / relayclients6)) is the oracle [o_relay]:
     > 0 the client is listed, 0 not listed, < 0 unreadable or malformed. *)
 From Qv Require Import Common.Bytes Gen.GenSession Model.NetRead Model.Session Spec.SessionSpec Proofs.AuthSync Proofs.SessionProofs.
+From Qv Require Model.TlsVerify Spec.TlsVerifySpec Proofs.CertBridge.
 
-(** a 2xx for a non-local recipient implies that the relay list matched or that an AUTH succeeded earlier on the same
-    connection (a note [NAuth name] with a non-empty name stands before it in the trace; the note is emitted exactly with
-    the reply 235).  In particular an unreadable or malformed list (o_relay < 0) and "not listed" (0) never allow
-    relaying on their own (fail closed), and neither RSET, HELO/EHLO, a failed AUTH nor a new transaction make a client
-    authenticated. *)
+(** ONE THEOREM FOR THE THREE ENTITLEMENTS.  A 2xx for a non-local recipient implies that the relay list matched, or that an
+    AUTH succeeded earlier on the same connection (a note [NAuth name] with a non-empty name stands before it in the trace;
+    the note is emitted exactly with the reply 235), or that tls_verify() accepted a TLS client certificate earlier on the same
+    connection (a note [NCert name] stands before it; the note is emitted exactly where is_authenticated() sets
+    xmitstat.tlsclient and relayclient = 1, and C01_cert_note_is_entitling_certificate below says what that means).  In
+    particular an unreadable or malformed list (o_relay < 0) and "not listed" (0) never allow relaying on their own (fail
+    closed), an error inside tls_verify() never does, and neither RSET, HELO/EHLO, STARTTLS, a failed AUTH nor a new
+    transaction make a client entitled. *)
 Theorem C01_remote_rcpt_needs_relay : forall o chunks pre addr post,
-  run_session o chunks = pre ++ Note (NRcpt addr RNotLocal) :: post -> (0 < o_relay o)%Z \/ has_auth pre = true.
+  run_session o chunks = pre ++ Note (NRcpt addr RNotLocal) :: post ->
+  (0 < o_relay o)%Z \/ has_auth pre = true \/ has_cert pre = true.
 Proof. exact remote_rcpt_needs_relay. Qed.
 Print Assumptions C01_remote_rcpt_needs_relay.
 
 (** the submission port (TCPLOCALPORT 587, [o_submission]) takes mail only from entitled clients: MAIL FROM gets its 250 there
-    only if the relay list matched the client or an AUTH succeeded earlier on the same connection - the same
-    is_authenticated() as for a remote recipient, with the same cache and the same fail-closed treatment of an unreadable list *)
+    only under the same three conditions - the same is_authenticated() as for a remote recipient, with the same cache and the
+    same fail-closed treatment of an unreadable list or a failing certificate check *)
 Theorem C01_submission_needs_entitlement : forall o chunks pre f post, o_submission o = true ->
-  run_session o chunks = pre ++ Note (NMail f) :: post -> (0 < o_relay o)%Z \/ has_auth pre = true.
+  run_session o chunks = pre ++ Note (NMail f) :: post -> (0 < o_relay o)%Z \/ has_auth pre = true \/ has_cert pre = true.
 Proof. exact submission_mail_needs_entitlement. Qed.
 Print Assumptions C01_submission_needs_entitlement.
+
+(** THE BRIDGE TO THE CERTIFICATE THEOREMS (Props/Properties_C01t.v).  In the session model the outcome of the one real
+    evaluation of tls_verify() is the oracle [o_tlsverify]; Model/TlsVerify.v is the literal model of that function with
+    OpenSSL, control/tlsclients and the network as oracles [e].  [tv_agrees e tv] (Proofs/CertBridge.v) says that the
+    session's oracle value is what TlsVerify.tls_verify computes from [e] on a connection where the check has not run.
+
+    (1) a certificate note appears only inside TLS ([o_tls]) and only where tls_verify() answered "1, this name" *)
+Theorem C01_cert_note_only_from_tls_verify : forall o chunks n,
+  In (Note (NCert n)) (run_session o chunks) -> o_tls o = true /\ o_tlsverify o = TV_yes n.
+Proof. exact CertBridge.cert_note_from_tls_verify. Qed.
+Print Assumptions C01_cert_note_only_from_tls_verify.
+
+(** (2) ... which, by C01t_verify_positive_only_if, means: the client presented a certificate that verifies against
+    clientca.pem and whose address (emailAddress, without one commonName) is [n], an entry of control/tlsclients *)
+Theorem C01_cert_note_is_entitling_certificate : forall o chunks n e,
+  CertBridge.tv_agrees e (o_tlsverify o) -> TlsVerifySpec.netw_ok e ->
+  In (Note (NCert n)) (run_session o chunks) ->
+  o_tls o = true /\ TlsVerifySpec.cert_entitles e n.
+Proof. exact CertBridge.cert_note_is_entitling_certificate. Qed.
+Print Assumptions C01_cert_note_is_entitling_certificate.
+
+(** (3) THE PROPERTY, all three entitlements, for every session: a recipient outside rcpthosts gets its 2xx only if the
+    relay list matched the client, or an AUTH succeeded earlier on the connection, or the connection is inside TLS and a
+    certificate note stands before it whose name satisfies [cert_entitles] *)
+Theorem C01_three_entitlements : forall o chunks pre addr post e,
+  CertBridge.tv_agrees e (o_tlsverify o) -> TlsVerifySpec.netw_ok e ->
+  run_session o chunks = pre ++ Note (NRcpt addr RNotLocal) :: post ->
+  (0 < o_relay o)%Z \/ has_auth pre = true
+  \/ (o_tls o = true /\ exists name, In (Note (NCert name)) pre /\ TlsVerifySpec.cert_entitles e name).
+Proof. exact CertBridge.remote_rcpt_three_entitlements. Qed.
+Print Assumptions C01_three_entitlements.
+
+Theorem C01_submission_three_entitlements : forall o chunks pre f post e,
+  CertBridge.tv_agrees e (o_tlsverify o) -> TlsVerifySpec.netw_ok e -> o_submission o = true ->
+  run_session o chunks = pre ++ Note (NMail f) :: post ->
+  (0 < o_relay o)%Z \/ has_auth pre = true
+  \/ (o_tls o = true /\ exists name, In (Note (NCert name)) pre /\ TlsVerifySpec.cert_entitles e name).
+Proof. exact CertBridge.submission_mail_three_entitlements. Qed.
+Print Assumptions C01_submission_three_entitlements.
+
+(** (4) refinement: the is_authenticated() of the session model IS the is_authenticated() of Model/TlsVerify.v on the part of
+    the state it works on ([proj]: relayclient, xmitstat.tlsclient, ssl_verified) - same decision (1 / 0 / error / the process
+    dies), same state afterwards - for every [e] that agrees with the session's oracles, so all C01t theorems about
+    is_authenticated() (error never entitles, relayclient = 1 only by list or certificate, checked at most once, ...) are
+    theorems about the session's function *)
+Theorem C01_is_authenticated_refines : forall o s e res s1 pre,
+  TlsVerifySpec.netw_ok e -> TlsVerify.e_tls e = o_tls o -> TlsVerify.e_auth e = authed s -> TlsVerify.e_ipbl e = o_relay o ->
+  (o_tls o = true -> authed s = false -> CertBridge.tv_agrees e (o_tlsverify o)) ->
+  relay_decide o s RNotLocal = (res, s1, pre) ->
+  exists out lg, TlsVerify.is_authenticated e (CertBridge.proj s) = (out, CertBridge.proj s1, lg) /\ CertBridge.res_matches res out.
+Proof. exact CertBridge.relay_decide_is_is_authenticated. Qed.
+Print Assumptions C01_is_authenticated_refines.
 
 (** an AUTH note appears only where AUTH is permitted (a backend is configured) and the mechanism handler
     (base64 decoding + checkpassword, property C09) reported success for that very name *)
@@ -42,8 +99,8 @@ Example C01_nonvacuous :
   existsb (fun e => match e with Note (NRcpt _ RNotLocal) => true | _ => false end)
     (run_session {| o_helo := fun _ => true; o_addr := fun _ _ => AP_ok [120]%N None RNotLocal;
                     o_ext := fun _ => Ext_ok 0 0 None; o_relay := 1%Z; o_mx := fun _ => 0; o_qq := fun _ => QQ_ok;
-                    o_databytes := 0%N; o_liphost := []; o_check2822 := false; o_authperm := false; o_auth := fun _ => Auth_multi; o_trace := fun _ _ _ _ _ _ => [];
-              o_submission := false; o_subm_date := []; o_subm_stamp := []; o_msgidhost := [] |}
+                    o_databytes := 0%N; o_liphost := []; o_check2822 := false; o_authperm := false; o_auth := fun _ => Auth_multi; o_trace := fun _ _ _ _ _ _ _ => [];
+              o_submission := false; o_subm_date := []; o_subm_stamp := []; o_msgidhost := []; o_tls := false; o_tlsverify := TV_no |}
         [ [72;69;76;79;32;120;13;10]; [77;65;73;76;32;70;82;79;77;58;60;97;62;13;10];
           [82;67;80;84;32;84;79;58;60;98;62;13;10] ]%N) = true.
 Proof. vm_compute. reflexivity. Qed.
@@ -53,8 +110,8 @@ Example C01_nonvacuous_auth :
   let o := {| o_helo := fun _ => true; o_addr := fun _ _ => AP_ok [120]%N None RNotLocal;
               o_ext := fun _ => Ext_ok 0 0 None; o_relay := 0%Z; o_mx := fun _ => 0; o_qq := fun _ => QQ_ok;
               o_databytes := 0%N; o_liphost := []; o_check2822 := false; o_authperm := true;
-              o_auth := fun _ => Auth_ok [117]%N; o_trace := fun _ _ _ _ _ _ => [];
-              o_submission := false; o_subm_date := []; o_subm_stamp := []; o_msgidhost := [] |} in
+              o_auth := fun _ => Auth_ok [117]%N; o_trace := fun _ _ _ _ _ _ _ => [];
+              o_submission := false; o_subm_date := []; o_subm_stamp := []; o_msgidhost := []; o_tls := false; o_tlsverify := TV_no |} in
   let ehlo := [69;72;76;79;32;120;13;10]%N in let auth := [65;85;84;72;32;80;76;65;73;78;32;120;13;10]%N in
   let mail := [77;65;73;76;32;70;82;79;77;58;60;97;62;13;10]%N in let rcpt := [82;67;80;84;32;84;79;58;60;98;62;13;10]%N in
   existsb (fun e => match e with Note (NRcpt _ RNotLocal) => true | _ => false end) (run_session o [ehlo; auth; mail; rcpt]) = true
@@ -66,11 +123,29 @@ Example C01_nonvacuous_submission :
   let o := {| o_helo := fun _ => true; o_addr := fun _ _ => AP_ok [120]%N None RNotLocal;
               o_ext := fun _ => Ext_ok 0 0 None; o_relay := 0%Z; o_mx := fun _ => 0; o_qq := fun _ => QQ_ok;
               o_databytes := 0%N; o_liphost := []; o_check2822 := false; o_authperm := true;
-              o_auth := fun _ => Auth_ok [117]%N; o_trace := fun _ _ _ _ _ _ => [];
-              o_submission := true; o_subm_date := []; o_subm_stamp := []; o_msgidhost := [] |} in
+              o_auth := fun _ => Auth_ok [117]%N; o_trace := fun _ _ _ _ _ _ _ => [];
+              o_submission := true; o_subm_date := []; o_subm_stamp := []; o_msgidhost := []; o_tls := false; o_tlsverify := TV_no |} in
   let ehlo := [69;72;76;79;32;120;13;10]%N in let auth := [65;85;84;72;32;80;76;65;73;78;32;120;13;10]%N in
   let mail := [77;65;73;76;32;70;82;79;77;58;60;97;62;13;10]%N in
   existsb (fun e => match e with Note (NMail _) => true | _ => false end) (run_session o [ehlo; auth; mail]) = true
   /\ existsb (fun e => match e with Note (NMail _) => true | _ => false end) (run_session o [ehlo; mail]) = false
   /\ run_session o [ehlo; mail] = [Reply 220; Note NBoundary; Note NHelo; Note (NEsmtp true); Reply 250; Note NBadReset; Reply 550; Note NBad; Note NBadReset].
+Proof. vm_compute. repeat split; reflexivity. Qed.
+
+(** the third entitlement in a session: inside TLS, not listed, no AUTH; tls_verify() accepts the certificate of "u": the remote
+    recipient is accepted and the note stands before it; with the oracle saying "no" (or outside TLS) it is refused *)
+Example C01_nonvacuous_certificate :
+  let o b tv := {| o_helo := fun _ => true; o_addr := fun _ _ => AP_ok [120]%N None RNotLocal;
+              o_ext := fun _ => Ext_ok 0 0 None; o_relay := 0%Z; o_mx := fun _ => 0; o_qq := fun _ => QQ_ok;
+              o_databytes := 0%N; o_liphost := []; o_check2822 := false; o_authperm := false;
+              o_auth := fun _ => Auth_multi; o_trace := fun _ _ _ _ _ _ _ => [];
+              o_submission := false; o_subm_date := []; o_subm_stamp := []; o_msgidhost := []; o_tls := b; o_tlsverify := tv |} in
+  let ehlo := [69;72;76;79;32;120;13;10]%N in
+  let mail := [77;65;73;76;32;70;82;79;77;58;60;97;62;13;10]%N in let rcpt := [82;67;80;84;32;84;79;58;60;98;62;13;10]%N in
+  filter (fun e => match e with Note (NCert _) | Note (NRcpt _ _) | Reply _ => true | _ => false end) (run_session (o true (TV_yes [117]%N)) [ehlo; mail; rcpt; rcpt])
+    = [Reply 220; Reply 250; Reply 250; Note (NCert [117]%N); Note (NRcpt [120]%N RNotLocal); Reply 250; Note (NRcpt [120]%N RNotLocal); Reply 250]
+  /\ existsb (fun e => match e with Note (NRcpt _ RNotLocal) => true | _ => false end) (run_session (o true TV_no) [ehlo; mail; rcpt]) = false
+  /\ existsb (fun e => match e with Note (NRcpt _ RNotLocal) => true | _ => false end) (run_session (o false (TV_yes [117]%N)) [ehlo; mail; rcpt]) = false
+  /\ filter (fun e => match e with Reply _ | Closed => true | _ => false end) (run_session (o true (TV_err true HEPROTO)) [ehlo; mail; rcpt; rcpt])
+    = [Reply 220; Reply 250; Reply 250; Reply 454; Reply 550; Reply 551].
 Proof. vm_compute. repeat split; reflexivity. Qed.
